@@ -380,6 +380,59 @@ func Transcript(path string) error {
 			})
 		}
 	}
+	// coordinates encoded as v+p (where that still fits the coordinate width): whatever a build does with such an
+	// encoding - reject it, or decode it to the point with coordinate v - every build must do the same
+	for _, e := range []struct {
+		name string
+		p    *big.Int
+	}{{"bn256.G1", curves.BN256P}, {"bn256.G2", curves.BN256P}, {"bn254.G1", curves.BN254P}, {"bn254.G2", curves.BN254P}, {"p256", curves.P256P}} {
+		g := groups.ByName(e.name)
+		if g == nil {
+			continue
+		}
+		n := 1200
+		if g.Kind == "G2" {
+			n = 300
+		}
+		for blk := 1; blk <= n; blk += 100 {
+			h := sha256.New()
+			for k := blk; k < blk+100 && k <= n; k++ {
+				P := g.Point().Mul(g.Scalar().SetInt64(int64(k)), nil)
+				b, _ := P.MarshalBinary()
+				off := 0
+				if e.name == "p256" {
+					off = 1
+				}
+				cw := 32
+				for c0 := off; c0+cw <= len(b); c0 += cw {
+					v := new(big.Int).SetBytes(b[c0 : c0+cw])
+					v.Add(v, e.p)
+					if v.BitLen() > 8*cw {
+						continue
+					}
+					enc := append([]byte{}, b...)
+					v.FillBytes(enc[c0 : c0+cw])
+					var line string
+					func() {
+						defer func() {
+							if r := recover(); r != nil {
+								line = fmt.Sprintf("panic: %v", r)
+							}
+						}()
+						Q := g.Point()
+						if err := Q.UnmarshalBinary(enc); err != nil {
+							line = "rejected"
+							return
+						}
+						o, _ := Q.MarshalBinary()
+						line = fmt.Sprintf("%x", o)
+					}()
+					h.Write([]byte(line + "\n"))
+				}
+			}
+			fmt.Fprintf(w, "%s|coordinates encoded as v+p, k in [%d,%d)|%x\n", e.name, blk, blk+100, h.Sum(nil)[:16])
+		}
+	}
 	for _, ps := range groups.PairingSuites() {
 		l, err := pairLines(ps)
 		if err != nil {
